@@ -231,12 +231,12 @@ Theorem eval_rm_only :
   forall n, rm_only n -> forall parent sc,
     exists os, eval_node parent sc n = ROk (os, sc) /\ node_result parent n os.
 Proof.
-  induction n as [nm v i|nm v|t|s body IH|sel body IH] using node_ind'; intros Hro parent sc; try contradiction.
+  induction n as [nm v i|nm v|t|s body IH|sel body IH|mn mp mb IH|cn ca] using node_ind'; intros Hro parent sc; try contradiction.
   - cbn [rm_only] in Hro. eexists. split.
-    + cbn [eval_node]. rewrite preprocess_plain by assumption. rewrite eval_value_plain_vf by assumption. reflexivity.
+    + cbn [eval_node_g]. rewrite preprocess_plain by assumption. rewrite eval_value_plain_vf by assumption. reflexivity.
     + reflexivity.
   - apply rm_only_body in Hro as [Hsel Hbody].
-    cbn [eval_node].
+    cbn [eval_node_g].
     set (me := ident_parse parent sel).
     set (p' := if sets_current sel then Some me else parent).
     (* the body loop, for whichever parent the children see *)
@@ -257,7 +257,7 @@ Proof.
         destruct (IHc Hc p' sc1) as (os & Ec & Rc). destruct (IHr IHrest Hrest sc1) as (rest & Er & P1 & P2 & P3 & P4 & P5).
         exists (os ++ rest). rewrite Ec. cbn [rbind]. rewrite Er. cbn [rbind]. split; [reflexivity|].
         rewrite !filter_app, !flat_map_app, map_app, mflat_list_cons. cbn [fst snd].
-        destruct c as [nm v i|nm v|t|s b|s b]; cbn [node_result] in Rc; try (cbn [rm_only] in Hc; contradiction).
+        destruct c as [nm v i|nm v|t|s b|s b|mn mp mb|cn ca]; cbn [node_result] in Rc; try (cbn [rm_only] in Hc; contradiction).
         + subst os. cbn [filter obj_is_block negb obj_is_media andb flat_map app own_props mflat fst snd map].
           rewrite P1, P4, P5. auto.
         + destruct Rc as (us & ms & -> & Hus & Hms & G1 & G2).
